@@ -39,6 +39,52 @@ F('expr__match', r'constexpr\s+bool\s+match\(match_options opts,\s*const Buffer&
   rules=[EMIT2, S(r'auto res = dfa_match\(sm, opts, source_point\{\}, buf\.begin\(\), buf\.end\(\), s\);', 'struct recognized_term res = regex__dfa_match(&expr_sm, opts, source_point__default(), buf_begin, buf_end);', name='R3:expr::sm'),
          S(r'auto end = buf\.begin\(\) \+ res\.len;', 'const char* end = buf_begin + res.len;', name='R7'), S(r'buf\.end\(\)', 'buf_end', min=1, name='R7:end')])
 
+# ---------------------------------------------------------------- dfa_builder<N> (R3: one builder, its `sm` is the global b_sm)
+DB = [r'class\s+dfa_builder\b']
+
+
+def smcall(m, parts):
+    meth = m.group(1)
+    args = ', '.join(parts)
+    if meth == 'size':
+        return 'b_sm.current_size'
+    if meth == 'back':
+        return '(*dfa_back(&b_sm))'
+    return 'dfa_%s(&b_sm%s)' % (meth, (', ' + args) if args else '')
+
+
+DBR = [Call(r'(?<![\w.>])sm\.(size|back|push_back)', smcall, min=0, name='R4:sm.method'),
+       S(r'(?<![\w.>])sm\[([^\]]*)\]', r'b_sm.the_data[vx_idx(\1, b_sm.current_size)]', min=0, name='R4:sm[i]'),
+       S(r'\bdfa_state_n\(\)', 'dfa_state__default()', min=0, name='R16:dfa_state()'), S(r'\bdfa_state_n& (\w+) = ([^;]*);', r'struct dfa_state* \1 = &(\2);', min=0, name='R5:dfa_state&'),
+       S(r'\bslice\{', '(struct utils__slice){', min=0, name='R16:slice'), Call(r'(?<![\w.])merge', lambda m, p: 'vx_merge_abs(%s)' % ', '.join((p + ['VX_MERGE_DEFAULT_KEEP', 'VX_MERGE_DEFAULT_MARK'][len(p) - 2:]) if len(p) < 4 else p), min=0, name='abstract callee: merge (default arguments from the real declaration)'),
+       S(r'\bto\.end_state\b', 'to->end_state', min=0), S(r'\bs\.(start|n)\b', r's.\1', min=0)]
+F('db_transition_c', r'constexpr\s+dfa_state_n&\s+transition\(dfa_state_n& from,\s*char c\)', 'struct dfa_state* db_transition_c(struct dfa_state* from, char c)', scope=DB,
+  rules=[S(r'\bfrom\.transitions', 'from->transitions'), S(r'return sm\.back\(\);', 'return &(*dfa_back(&b_sm));', name='R5:return-ref'), Bound(r'from->transitions', ['256'])] + DBR)
+F('db_transition_s', r'constexpr\s+dfa_state_n&\s+transition\(dfa_state_n& from,\s*const char_subset& s\)', 'struct dfa_state* db_transition_s(struct dfa_state* from, const struct char_subset* s)', scope=DB,
+  rules=[S(r'\bfrom\.transitions', 'from->transitions'), S(r'\bs\.size\(\)', 'char_subset__size(s)'), S(r'\bs\.test\(', 'char_subset__test(s, '),
+         S(r'return sm\.back\(\);', 'return &(*dfa_back(&b_sm));', name='R5:return-ref'), Bound(r'from->transitions', ['256'])] + DBR)
+F('db_primary_subset', r'constexpr\s+slice\s+primary_subset\(const char_subset& s\)', 'struct utils__slice db_primary_subset(const struct char_subset* s)', scope=DB,
+  rules=[S(r'sm\.back\(\)\.start_state = 1;', '(*dfa_back(&b_sm)).start_state = 1;', name='R5'), S(r'dfa_state_n& to = transition\(sm\.back\(\), s\);', 'struct dfa_state* to = db_transition_s(&(*dfa_back(&b_sm)), s);', name='R5:overload+ref'),
+         S(r'\bto\.end_state\b', 'to->end_state')] + DBR)
+F('db_opt', r'constexpr\s+slice\s+opt\(slice s\)', 'struct utils__slice db_opt(struct utils__slice s)', scope=DB, rules=DBR)
+F('db_mark_end_state', r'constexpr\s+void\s+mark_end_state\(dfa_state_n& s,\s*size16_t idx\)', 'void db_mark_end_state(struct dfa_state* s, size16_t idx)', scope=DB,
+  rules=[S(r'\bs\.end_state\b', 's->end_state'), S(r'add_conflicted_term\(s\.conflicted_recognition,', 'regex__add_conflicted_term(s->conflicted_recognition,')])
+F('db_mark_end_states', r'constexpr\s+void\s+mark_end_states\(slice s,\s*size16_t idx\)', 'void db_mark_end_states(struct utils__slice s, size16_t idx)', scope=DB,
+  rules=[S(r'mark_end_state\(sm\[i\], idx\)', 'db_mark_end_state(&sm[i], idx)', name='R5:ref-arg')] + DBR)
+for nm, args in (('star', 'slice s'), ('plus', 'slice s'), ('cat', r'slice s1,\s*slice s2'), ('alt', r'slice s1,\s*slice s2')):
+    cs = 'struct utils__slice db_%s(%s)' % (nm, 'struct utils__slice s' if 'slice s' == args else 'struct utils__slice s1, struct utils__slice s2')
+    F('db_' + nm, r'constexpr\s+slice\s+%s\(%s\)' % (nm, args), cs, scope=DB, rules=DBR)
+F('dfa_state__ctor', r'constexpr\s+dfa_state\(\)', 'void dfa_state__ctor(struct dfa_state* self)', scope=[r'struct\s+dfa_state\b'],
+  rules=[RangeFor([(r'transitions', '256', 'self->transitions[{i}]', 'size16_t', True)])])
+# cvector<dfa_state<N>, N>: the three members the builder uses (same one-line bodies as in unit stdex; T is a struct here)
+import stdex as SX
+DFAV = [f for f in SX.make_cvector('dfa', 'struct dfa_state') if f.name in ('dfa_push_back', 'dfa_back')]
+for f in DFAV:
+    f.harness, f.props = None, []
+    f.contract = ''
+fns.extend(DFAV)
+
+
 def merge_rec_fragment(body):
     import re as _re
     ms = _re.findall(r'(?<![\w.])merge\(tr_to,\s*tr_from,\s*([^,()]+),\s*([^,()]+)\);', body)
@@ -71,22 +117,35 @@ static inline struct source_point source_point__default(void) { struct source_po
 static inline struct recognized_term recognized_term__default(void) { struct recognized_term r = { uninitialized16, uninitialized16 }; return r; }
 static inline unsigned long vx_sp(struct source_point sp) { return ((unsigned long)sp.line << 32) | sp.column; }
 static inline size_t vx_idx(size_t i, size_t n) { __CPROVER_assert(i < n, "VX_BOUND subscript within the declared (logical) dimension"); return i; }
-struct cbitset_N { uint64_t data[1]; };       /* stdex::cbitset<N> for N <= 64 states (merged_from) */
+struct cbitset_N { uint64_t data[1]; };
+struct cbitset256 { uint64_t data[4]; };        /* stdex::cbitset<256> inside char_subset */
+#define VX_CAP PH_DFA       /* stdex::cbitset<N> for N <= 64 states (merged_from) */
 struct dfa_state { size8_t start_state; size8_t end_state; size8_t unreachable; size16_t conflicted_recognition[4]; size16_t transitions[256]; struct cbitset_N merged_from; };
 struct dfa { size_t current_size; size_t N; struct dfa_state the_data[PH_DFA]; };   /* scalar fields first: CBMC 6.11 struct-array quirk, DESIGN.md 8 */
 @@EV_ENUM@@
 unsigned vx_ev_n; int vx_ev_kind; unsigned long vx_ev_a0, vx_ev_a1, vx_ev_a2;
 void vx_emit(int kind, unsigned long a0, unsigned long a1, unsigned long a2) { if (vx_ev_n < 1000) vx_ev_n++; vx_ev_kind = kind; vx_ev_a0 = a0; vx_ev_a1 = a1; vx_ev_a2 = a2; }
 const char* g_buf; size_t g_len; size_t g_k;
-struct dfa expr_sm;     /* R3: regex::expr<Pattern>::sm of the one instance under consideration */
+void dfa_state__ctor(struct dfa_state* self);
+/* R16: dfa_state{} = the default member initialisers of the real struct (pinned as a fact) followed by the real constructor body */
+static inline struct dfa_state dfa_state__default(void) { struct dfa_state d; d.start_state = 0; d.end_state = 0; d.unreachable = 0;
+  d.conflicted_recognition[0] = uninitialized16; d.conflicted_recognition[1] = uninitialized16; d.conflicted_recognition[2] = uninitialized16; d.conflicted_recognition[3] = uninitialized16;
+  d.merged_from.data[0] = 0; dfa_state__ctor(&d); return d; }
+struct dfa expr_sm; struct dfa b_sm;   /* R3: the automaton the one dfa_builder works on */
+struct char_subset { struct cbitset256 data; };
+/* char_subset::size() / test(): one-liners over cbitset<256> (pinned as facts; cbitset::test is under contract in unit stdex) */
+static inline size_t char_subset__size(const struct char_subset* s) { return 256; }
+static inline bool char_subset__test(const struct char_subset* s, size_t idx) { __CPROVER_assert(idx < 256, "cbitset<256>::check_idx"); return (s->data.data[idx / 64] >> (idx % 64)) & 1; }     /* R3: regex::expr<Pattern>::sm of the one instance under consideration */
 size16_t g_ret_term; size_t g_ret_len;   /* ghost: the result dfa_match returned */
 #define VX_OFF(p) ((size_t)__CPROVER_POINTER_OFFSET(p))
 #define VX_MAXBUF 70000
 static inline const char* vx_rd(const char* p) { __CPROVER_assert(__CPROVER_same_object(p, g_buf) && VX_OFF(p) < g_len, "VX_BUFFER read inside the caller's buffer"); return p; }
 ''' + open(os.path.join(HERE, '..', 'contracts', 'dfa.pre.h')).read()
 
-UNIT = Unit('dfa', PRELUDE, fns, consts=PC.UNINIT)
-UNIT.facts = [r'struct source_point\s*\{\s*size32_t line = 1;\s*size32_t column = 1;', r'using conflicted_terms = size16_t\[4\];', r'static const size_t transitions_size = meta::distinct_values_count<char>;',
+UNIT = Unit('dfa', PRELUDE, fns, consts=PC.UNINIT + [
+    ('VX_MERGE_DEFAULT_KEEP', r'constexpr void merge\(size_t to, size_t from, bool keep_end_state = (\w+), bool mark_from_as_unreachable = \w+\)', None),
+    ('VX_MERGE_DEFAULT_MARK', r'constexpr void merge\(size_t to, size_t from, bool keep_end_state = \w+, bool mark_from_as_unreachable = (\w+)\)', None)])
+UNIT.facts = [r'constexpr bool test\(size_t idx\) const \{ return data\.test\(idx\); \}', r'constexpr size_t size\(\) const \{ return data\.size\(\); \}', r'struct source_point\s*\{\s*size32_t line = 1;\s*size32_t column = 1;', r'using conflicted_terms = size16_t\[4\];', r'static const size_t transitions_size = meta::distinct_values_count<char>;',
               r'size8_t start_state = 0;\s*size8_t end_state = 0;\s*size8_t unreachable = 0;\s*conflicted_terms conflicted_recognition = \{ uninitialized16, uninitialized16, uninitialized16, uninitialized16 \};\s*size16_t transitions\[transitions_size\] = \{\};\s*stdex::cbitset<N> merged_from = \{\};',
               r'constexpr const T& operator\[\]\(size_type idx\) const \{ return the_data\[idx\]; \}',
               r'using dfa = stdex::cvector<dfa_state<N>, N>;', PC.FACTS[-1], PC.FACTS[5]]
